@@ -1,7 +1,7 @@
 """C10 Atmospheric composition is a valid mixture for every input."""
 import ast
 
-from sa.helpers import (the_return, mkflow, spec, code, one, calls, bind_call, param_env,
+from sa.helpers import (guard_is, same_cond, the_return, mkflow, spec, code, one, calls, bind_call, param_env,
                         fmt, atom_of, unparse, walk_no_nested, unalloc, call_kw)
 from sa.index import AnalysisError, ClassInfo
 from sa.algebra import RF, Slice
@@ -195,7 +195,7 @@ def _run(ix, R):
         stack = [e for e in vs if 'vstack' in fmt(fl, e.value)]
         lic = lambda x: x.early and g is not None and x.node is g.node      # only the validity check may stand in the way
         okv = okv and len(stack) == 1 and fl.tab.equal(atom_of(fl, stack[0].value).args[0], s.value) and \
-            all(lic(x) or (x.rf is not None and fl.tab.equal(x.rf, spec(fl, 'len(x) > 0', {'x': s.value})))
+            all(lic(x) or guard_is(fl, x, spec(fl, 'len(x) > 0', {'x': s.value}), True)
                 for x in stack[0].guards) and \
             len(sup) == 1 and all(lic(x) for x in sup[0].guards) and not sup[0].loops and \
             all(lic(x) for x in s.guards) and not s.loops and \
